@@ -292,6 +292,13 @@ class _Canon(ast.NodeTransformer):
         if node.orelse:
             node.orelse = self._guards(node.orelse, self._in_loop(node))
         self._positive(node)
+        # `if x not in T: <if/elif chain>` (no else) is the chain with a leading no-op arm `if x in T: pass`
+        t = node.test
+        if not node.orelse and isinstance(t, ast.Compare) and len(t.ops) == 1 and isinstance(t.ops[0], ast.NotIn) \
+                and len(node.body) == 1 and isinstance(node.body[0], ast.If):
+            t.ops = [ast.In()]
+            node.orelse = node.body
+            node.body = [ast.copy_location(ast.Pass(), node)]
         if node.orelse and not (len(node.orelse) == 1 and isinstance(node.orelse[0], ast.If)) \
                 and isinstance(node.test, ast.UnaryOp) and isinstance(node.test.op, ast.Not):
             node.test, node.body, node.orelse = node.test.operand, node.orelse, node.body
